@@ -71,8 +71,10 @@ def _canon(conds, union):
     """Canonicalise isinstance conditions on a two-class union annotation to the first class of the union."""
     out = []
     for c in conds:
-        neg = c.startswith("not ")
-        body = c[4:] if neg else c
+        neg = False
+        body = c
+        while body.startswith("not "):  # `not not X` (a negated test on a negated branch) is X
+            neg, body = not neg, body[4:]
         mm = re.fullmatch(r"isinstance\((\w+), (\w+)\)", body)
         if mm and len(union) == 2 and mm.group(2) in union:
             if mm.group(2) == union[1]:
